@@ -6,7 +6,7 @@ cd $W || exit 2
 git checkout -q -- . ; rm -f wgsl_to_wgpu/tests/demo_*.rs
 mkdir -p wgsl_to_wgpu/tests
 cp $O/demo_$V.rs wgsl_to_wgpu/tests/demo_$V.rs
-export CARGO_NET_OFFLINE=true CARGO_TARGET_DIR=/tmp/mut_target
+export CARGO_NET_OFFLINE=true CARGO_TARGET_DIR=${SEED_TARGET:-/tmp/mut_target}
 # 1. demo passes without the change
 cargo test -p wgsl_to_wgpu --offline --test demo_$V >/tmp/seed_$P$V.base.log 2>&1; BASE=$?
 # 2. with the change: existing tests pass, demo fails
